@@ -23,6 +23,7 @@ type C11Item struct {
 	L    int    `json:"l,omitempty"`   // open: left margin+border+padding of the inline box; ib: side margin
 	R    int    `json:"r,omitempty"`   // open: right margin+border+padding
 	How  int    `json:"how,omitempty"` // open: which of margin / border / padding carry L and R
+	P    int    `json:"p,omitempty"`   // ib: bottom padding (the box reaches below the strut of its line)
 	// Sep: what follows the item: "" (a space before the next unit), "br", "nl" (newline character)
 	Sep string `json:"sep,omitempty"`
 }
@@ -71,7 +72,7 @@ func c11Gen(t *rapid.T, tier Tier) interface{} {
 					depth++
 				}
 			case 2:
-				it := C11Item{Kind: "ib", Len: rapid.IntRange(1, 4).Draw(t, "iblen"), L: rapid.SampledFrom([]int{0, 0, 4}).Draw(t, "ibm")}
+				it := C11Item{Kind: "ib", Len: rapid.IntRange(1, 4).Draw(t, "iblen"), L: rapid.SampledFrom([]int{0, 0, 4}).Draw(t, "ibm"), P: rapid.SampledFrom([]int{0, 0, 0, 6, 14}).Draw(t, "ibp")}
 				c.Items = append(c.Items, it)
 				total += (it.Len+1)*c.FontSize + 2*it.L
 				continue
@@ -126,6 +127,7 @@ type c11Unit struct {
 	right  float64
 	w      float64 // text or box width (without decorations)
 	forced bool    // a forced break follows
+	padB   float64 // ib: bottom padding
 }
 
 func (u c11Unit) width() float64 { return u.left + u.w + u.right }
@@ -199,8 +201,8 @@ func c11Build(c *C11Case) (string, []c11Unit) {
 		case "ib":
 			b.WriteString(sep)
 			w := strings.Repeat("I", it.Len)
-			fmt.Fprintf(&b, `<span style="display:inline-block;width:%dpx;margin:0 %dpx;text-indent:0">%s</span>`, it.Len*c.FontSize, it.L, w)
-			units = append(units, c11Unit{text: w, ib: true, left: pendingLeft, w: fs*float64(it.Len) + 2*float64(it.L)})
+			fmt.Fprintf(&b, `<span style="display:inline-block;width:%dpx;margin:0 %dpx;padding-bottom:%dpx;text-indent:0">%s</span>`, it.Len*c.FontSize, it.L, it.P, w)
+			units = append(units, c11Unit{text: w, ib: true, left: pendingLeft, w: fs*float64(it.Len) + 2*float64(it.L), padB: float64(it.P)})
 			pendingLeft = 0
 			after(it.Sep)
 		}
@@ -522,8 +524,16 @@ func c11Check(ci interface{}) Verdict {
 		if near(content, avail) && len(wl.units) > 1 {
 			labels["exact-fit"] = true
 		}
-		if !near(l.h, lh) {
-			return Viol(c.Engine+":"+pctx+":"+"line-height:"+c.LineHeight, "line %d is %g px high, line-height %s at font-size %d gives %g (%s)\n%s", i, l.h, c.LineHeight, c.FontSize, lh, ctx, html)
+		// an inline-block sits on the baseline: its bottom padding reaches below the strut and the line grows by it
+		lhLine := lh
+		for _, u := range wl.units {
+			if lh+u.padB > lhLine {
+				lhLine = lh + u.padB
+				labels["line-taller-than-strut"] = true
+			}
+		}
+		if !near(l.h, lhLine) {
+			return Viol(c.Engine+":"+pctx+":"+"line-height:"+c.LineHeight, "line %d is %g px high, line-height %s at font-size %d (and the inline-blocks of the line) gives %g (%s)\n%s", i, l.h, c.LineHeight, c.FontSize, lhLine, ctx, html)
 		}
 		if i > 0 && !near(l.y, gotLines[i-1].y+gotLines[i-1].h) {
 			return Viol(c.Engine+":"+pctx+":"+"line-stacking", "line %d starts at y=%g, line %d ends at %g (%s)\n%s", i, l.y, i-1, gotLines[i-1].y+gotLines[i-1].h, ctx, html)
